@@ -2,6 +2,7 @@
 from axvlib import core
 from axvlib.core import AnchorMissing, op_local, op_const
 from . import common as K
+from . import dec_refs
 
 EXPLANATION = (
     "Decides the snapshot discipline: one snapshot per transaction (only begin() builds one), every production read "
@@ -296,3 +297,12 @@ def check(cx):
             why = "guards: %s" % [(sorted(t), "depends on xid" if d else "independent of xid") for t, d in guards]
         cx.verdict(good, r7, "first-deleter-wins", f.where(), why,
                    "the xmax store is not guarded by an `already deleted` test independent of the caller's id (%s)" % why)
+
+
+    # ---- C04.8 decision tables -------------------------------------------------------------------------
+    r8 = cx.rule("C04.8", "DEC: the decision tables of Snapshot::is_committed_before_snapshot, "
+                 "TupleLayout::is_valid_for_snapshot and Snapshot::is_transaction_aborted, extracted from the MIR over all "
+                 "orderings of the compared ids, equal the reference tables", floor=3)
+    dec_refs.check_committed_before(cx, r8, p)
+    dec_refs.check_valid_for_snapshot(cx, r8, p)
+    dec_refs.check_is_transaction_aborted(cx, r8, p)
